@@ -68,6 +68,19 @@ fn gen(ctx: &GenCtx, i: u64) -> Option<Run> {
                 let k = r.pick(&pool).clone();
                 rb.push(Op::BuilderOp { b, op: BOp::SetClaim(ClaimSpec::Native { key: k, val: gen_native(&mut r) }) });
             }
+            9 => {
+                // GenericBuilder::extend_claims: several keys at once, bare values
+                let mut m = std::collections::BTreeMap::new();
+                for _ in 0..1 + r.usize(3) {
+                    let k = if r.chance(1, 2) { r.pick(&pool).clone() } else { gen_key(&mut r) };
+                    m.insert(k, gen_json(&mut r, 2));
+                }
+                rb.push(Op::BuilderOp { b, op: BOp::ExtendClaims(m) });
+            }
+            10 if r.chance(1, 2) => {
+                let kind = *r.pick(&["iss", "sub", "aud", "jti", "exp", "nbf", "iat"]);
+                rb.push(Op::BuilderOp { b, op: BOp::SetClaim(ClaimSpec::DefaultOf(kind.to_string())) });
+            }
             8 => {
                 let k = r.pick(&pool).clone();
                 let mut v = gen_json(&mut r, 2);
